@@ -42,7 +42,8 @@ CLAIMS = {
          "and for the automaton the error position is the first character without a move while every reachable configuration has an explicit completion (Lemmas/AutomatonL.lean). Cursors count characters, so multi-byte characters shift nothing. "
          "Additionally the real reader's verdict and cursor are compared with the automaton (field G) and with the harness's reference recogniser plus brute-force completion on every run.",
          "Lean 4 proof that the reported cursor is the first character that cannot continue any accepted string (reader = grammar automaton; automaton configurations completable) + differential comparison of cursors", "4.5"),
- 'C06': ("Theorems in Purr/Props/C06.lean: every expect/unreachable!/overflow site of the code is an explicit panic outcome of the model, and the theorems show them unreachable: "
+ 'C06': ("Theorems in Purr/Props/C06.lean: the expect/unreachable!/overflow sites of the code are explicit panic outcomes of the model, and the theorems show them unreachable; the three groups of sites the model does not carry as an outcome "
+         "(expect(number) after at most three digits, unreachable!(TB1X/OH1X/OH2X), the expects of read_rnum.rs) are shown unreachable separately (number_sites_unreachable, configuration_sites_unreachable, Lemmas/ExpectL.lean): "
          "reading any string never reaches a panic site of the token readers or of read (read_no_panic, by induction over the reader transducer); the string writer never panics on the events "
          "of the reader or of the traversal of any adjacency list (via C08); hydrogen queries cannot overflow (subvalence <= 6, hydrogens <= 9 for any degree). Termination of every model function is "
          "Lean's own obligation. The graph builder and the trace never panic on the events of the reader (and the builder not on those of the traversal). The traversal of ANY adjacency list reaches no internal panic site "
@@ -74,8 +75,11 @@ CLAIMS = {
          "points at a node that still carries its placeholder); build_ok_wellformed — whenever build succeeds the graph is WellFormed (independent predicate of C11): invariant 'the resolved bonds form a well-formed simple graph', "
          "preserved by root / extend / opening join / closing join (proved on a pointwise view of the node list; the closing case uses the self/duplicate check of fix D9, the 64-row reconcile table and the placeholder invariant); "
          "hence validate accepts it and walk never rejects it (with C11); reconcile equals its specification on all 64 pairs and always yields mutually reversed kinds; a Join(a,b) error is only recorded by a closing digit, "
-         "with a = current head and b = the atom that opened the number. PARTIAL: the exact characterisation 'build fails iff unmatched digit / irreconcilable / self / duplicate closure, and Rnum(i) names an unmatched digit' is not yet a "
-         "theorem; it is decided on every run by an oracle that recomputes unmatched digits and problematic closures from the history without the builder.",
+         "with a = current head and b = the atom that opened the number. SECOND SENTENCE OF THE PROPERTY (Lemmas/BuildErrL.lean): build_join_error_is_real — an error Join(a,c) was recorded, in a state without earlier errors, by a closing digit written at head a "
+         "for a ring opened on c, and that closure cannot be made: a = c, a and c already bonded, or the two written kinds irreconcilable (JoinDefect); build_rnum_error_is_real — an error Rnum(i) names the i-th ring-closure digit of the history, "
+         "no later digit carries its number and that number has been written an odd number of times (an opening that is never answered); build_succeeds_iff — for every conformant history build returns a graph IFF no step meets a JoinDefect and every ring number "
+         "is written an even number of times (invariants: errors are exactly the defects met; every placeholder is the record of an unanswered opening digit; parity of each number = open or not). "
+         "Still decided on every run as well by an oracle that recomputes unmatched digits and problematic closures from the history without the builder.",
          "Lean 4 proof (builder invariant: resolved bonds form a well-formed simple graph, by induction over conformant histories) + differential correspondence of builder results", "4.10"),
  'C11': ("Theorems in Purr/Props/C11.lean, for EVERY adjacency list: validate g = none iff WellFormed g (independent definition in Purr/Spec/WellFormed.lean: targets exist, no self bond, no pair bonded twice, "
          "exactly one counterpart of compatible kind); walk reports success only on well-formed lists and on an ill-formed list returns an error having emitted NO event (never hands the follower an unbalanced molecule); "
@@ -105,12 +109,15 @@ CLAIMS = {
          "Lean 4 proof bounding recursion depth by nesting for all inputs + exact differential comparison with an activation-counter hook + child-process soak at 10^6 atoms", "4.19"),
  'C14': ("Determinism: the model is a pure function (stated), and no model result depends on map iteration order — pool lookup is invariant under permutation of the entries given the key-uniqueness invariant (pool_find_perm). The hash seed itself "
          "cannot be exhibited by a theorem: every well-formed input is written in fresh threads (fresh RandomState) by the oracle and must give identical bytes. FIXED POINT (graph_fixed_point, Lemmas/FixL.lean rtc_fix): for EVERY well-formed adjacency list, rings included, on which the traversal succeeds (D17 excepted), "
-         "the written text t is accepted, builds g', and traversing and writing g' reproduces t character for character (the complete second cycle read, build, walk, write); proof: lockstep of the traversals of g and of the re-read graph, which is g renumbered by visit position with arrival bonds first, pools equal up to key renumbering, parity compensations cancel. "
+         "the written text t is accepted, builds g', THE TRAVERSAL OF g' SUCCEEDS (it runs in lockstep with the first, so it needs no ring number the first did not need) and writing it reproduces t character for character (the complete second cycle read, build, walk, write, with nothing assumed about it); proof: lockstep of the traversals of g and of the re-read graph, which is g renumbered by visit position with arrival bonds first, pools equal up to key renumbering, parity compensations cancel. "
          "Also for every accepted string that builds (string_fixed_point) and at the text level (read-then-write of the events, T-wr). Stated about walk itself on both cycles (graph_fixed_point_walk, via loop = recursion, LoopRecL). Additionally the rewrite(rewrite x) = rewrite x oracle runs on the real code.",
          "Lean 4 proof (graph-level fixed point of the full round trip by lockstep simulation; order-independence of keyed lookups) + repeated-run / rewrite-twice oracle", "4.14"),
  'C15': ("Theorems in Purr/Props/C15.lean for EVERY string: the trace never panics on the reader's calls; the i-th atom range (a,b) satisfies a < b <= |s| and reading an atom at s.drop a succeeds and stops exactly at s.drop b "
          "(slicing the input there gives the token); the table has exactly one entry per atom event (ids past the last atom map to nothing); the k-th ring-closure token likewise; bond_cursor_is_bond_token: every cursor of the bond table is the position of a bond token — "
          "reading a bond there yields the written bond symbol, or nothing when elided, and is followed by the target atom or ring-closure token (so an elided bond maps to the first character of its target token and each end of a ring closure reports its own digit); "
+         "INDEX SIDE (trace_atom_is_its_token, trace_rnum_is_its_token, Lemmas/TraceIdxL.lean): entry i of the atom table is the token of the i-th atom the reader reported, that token reads as exactly the reported kind, and atom i of the built graph carries it; entry k of the ring table is the k-th join's token and reads as its number. "
+         "OWN END (bond_cursor_is_own_end, Lemmas/TraceEndsL.lean): the entry (x,y) -> c points at a bond token of kind b that is followed either by the trace's own range of the later of the atoms x, y, which the reader attached with exactly kind b (chain / branch bond, both directions), "
+         "or by the trace's own range of the k-th ring-closure token, which was written while x was the head atom and whose join carried exactly kind b (ring closure: each direction its own digit). "
          "trace_matches_built_graph: for every accepted string that builds, the trace has as many atoms as the built graph and an entry for (x,y) iff atom x has a bond to atom y (builder/trace lock-step over the same events, Lemmas/TraceBondL.lean). "
          "Additionally the complete trace dump of the real Trace (all atom ranges, every bond key in both directions, ring digits) is compared with the model on every string, and an oracle recomputes spans and bond cursors from an independent tokeniser.",
          "Lean 4 proof that recorded ranges and bond cursors are exactly token positions (located-event invariant over the reader) and that the trace's keys are the built graph's bonds (lock-step invariant) + full trace-dump correspondence", "4.15"),
